@@ -103,9 +103,10 @@ def run(ck):
             if c != 0: ck.violation("exact enclosure failed (code %d)" % c, m, key="c05-exact-%d" % c)
     ck.extra["traces_validated_against_impl"] = len(codes)
     # ---------------- vacancy-mediated -------------------------------------------------------------------
-    names = ["square", "honeycomb", "sq2w", "tria", "sc"] + ([] if ck.quick else ["fcc", "bcc", "b2", "hcp", "re3", "tet"])
+    # rect / ortho / tet / hcp have several inequivalent exchange (omega2) classes
+    names = ["rect", "square", "ortho", "honeycomb", "sq2w", "tria", "sc"] + ([] if ck.quick else ["hcp", "fcc", "bcc", "b2", "re3", "tet", "hcp-nonideal"])
     nvm = 0; nreal = 0
-    for rep in range(ck.n(4, 14)):
+    for rep in range(ck.n(6, 16)):
         nm = names[rep % len(names)]
         crys, chem = gen.named(nm)
         net = gen.percolating_network(crys, chem, rng, maxshell=1, maxjumps=30)
@@ -115,8 +116,14 @@ def run(ck):
         M = vm.min_torus(d)
         if d.N * d.N * M ** crys.dim > (700 if ck.quick else 2600): continue
         th = vm.random_thermo(d, rng, interact=True, site_energies=True)
-        strong = rng.random() < 0.3
-        if strong: th["eneT2"] = th["eneT2"] - rng.uniform(8, 20)   # regime where the default picks the large-omega2 algorithm
+        # strong-exchange regime (the default then picks the large-omega2 algorithm); only for crystals outside the known
+        # large-omega2 failure regimes of C08 (one Wyckoff set, no origin-state vector basis); inequivalent exchange
+        # classes get rates spread over up to 1.5 decades
+        plain = len(sl) == 1 and len(d.OSindices) == 0
+        strong = plain and (rep % 2 == 0 or rng.random() < 0.3)
+        if strong:
+            th["eneT2"] = th["eneT2"] - rng.uniform(18, 24)
+            th["preT2"] = th["preT2"] * np.array([10.0 ** rng.uniform(0, 1.5) for _ in th["preT2"]])
         targets = [("eneT0", k) for k in range(len(th["eneT0"]))] + [("eneT1", k) for k in range(len(th["eneT1"]))] + \
                   [("eneT2", k) for k in range(len(th["eneT2"]))]
         rng.shuffle(targets)
